@@ -18,6 +18,8 @@ RULE = (
     "for the returned coordinates at the returned height (g family at [min, mid, max] height as the tool documents, hybrid "
     "loads) must give max EFT <= max + 1e-3 and min EFT >= min - 1e-3. size_only: real GHE objects over synthetic 1..5-height "
     "families -> size(): when a height is returned strictly inside the window the fresh re-simulation meets the limits. "
+    "feasible_l1: real search classes on real candidate lists (C03 lot generator) against a monotone thermal model (L1 seam): "
+    "the GHE object handed back must be feasible in the model. "
     "Non-trivial = design returned without the escape and the binding limit within 0.5 K of the simulated extreme; distinct "
     "by (method, pipe, flow type, N, rounded H)."
 )
@@ -118,6 +120,37 @@ def check_size(case, rec):
     rec.sample({"N": len(coords), "H": h, "window": [case["hmin"], case["hmax"]], "excess": exc})
 
 
+def check_feasible_l1(case, rec):
+    """L1 seam: real search class on a real candidate list against a monotone thermal model; the design that is handed
+    back (the GHE object find_design sizes and reports, not merely the coordinates the search names) must be feasible"""
+    from props import c02
+    from vlib import seams
+
+    res, out, h, fields, model, info = guarded(c02._run_l1, case, what="search construction")
+    if not fields or isinstance(res, Exception):
+        rec.cls("no_design")
+        return
+    if any(mk in out for mk in gs.ESCAPE_MARKERS):
+        rec.cls("escaped")
+        return
+    n_obj = int(res.ghe.nbh)
+    e = model.excess(n_obj, h)
+    what = c02._search_cls(case["lot"]["method"]) + "/" + case["lot"]["method"]
+    if e > 1e-6:
+        raise Violation(f"{what}: the returned GHE ({n_obj} boreholes at H = {h:.3f} m; the search names a field of "
+                        f"{len(res.selected_coordinates)}) exceeds the limits by {e:.4g} K in the thermal model",
+                        sig={"kind": "returned_object_infeasible", "what": what})
+    rec.cls("cls_" + what)
+    rec.nontriv(case)
+    rec.sample({"method": case["lot"]["method"], "N": n_obj, "H": h, "excess": e})
+
+
+def search_feasible_l1(ctx):
+    from props import c02
+
+    ctx.given(c02.l1_case().map(lambda c: dict(c, mode="inside", cont=False)), ctx.n(6000, 300_000))
+
+
 def search_l2(ctx):
     gs.run_stratified(ctx, ctx.total(96, 1500), outcomes=["inside", "inside", "edge_small", "edge_large", "tiny", "huge"])
 
@@ -135,4 +168,5 @@ SUBS = [
     Sub("designs_l2", check_l2, search_l2, shards=lambda t: 16),
     Sub("designs_l3", check_l3, search_l3, shards=lambda t: 8 if t == "quick" else 16),
     Sub("size_only", check_size, search_size, shards=lambda t: 8),
+    Sub("feasible_l1", check_feasible_l1, search_feasible_l1, shards=lambda t: 8),
 ]
